@@ -192,6 +192,12 @@ def monitor(prop, progs, run):
                     continue
                 if a["ret"] is not None and a["ret"] < b["ret"]:
                     continue
+                if a["ret"] is None and run.status == "deadlock":
+                    # the execution is over and nobody can move any more: a was never granted at all, yet b, issued after a
+                    # was already parked, was — whatever their kinds (two reads may only be granted TOGETHER)
+                    msgs.append("request of thread %s (%s, parked at event %d) was never granted although thread %s (%s, called later at event %d) was granted at %d" %
+                                (a["t"], a["k"], a["park"], b["t"], b["k"], b["call"], b["ret"]))
+                    continue
                 # b was issued after a was observed parked, and b returned first
                 if a["k"] == "R" and b["k"] == "R":
                     # legitimate when they share a batch, or when a was admitted earlier and is only slow to wake up:
